@@ -340,7 +340,7 @@ def run_case(desc):
     v = V()
     if desc["kind"] == "record-failed":
         v.bad("record-run-failed", "uninterrupted recording run failed", desc=desc)
-        return v.result()
+        return v.result(evaluations=v.counters.get("resumes", 0), )
     case = WORKLOADS[desc["w"]]
     env, exp_calls = mapgen.oracle(case)
     with tmpdir("c05-") as scratch:
@@ -351,7 +351,7 @@ def run_case(desc):
             rc = _map_child(case, desc["st"], desc["mode"], root, log1, True, None, crash_at=desc["k"], tear=desc["tear"], trace=trace)
             if rc != fsmon.EXIT_CRASH:
                 v.count("crash_point_not_reached")
-                return v.result()
+                return v.result(evaluations=v.counters.get("resumes", 0), )
             ev = fsmon.read_trace(trace)
             last = ev[-1]
             v.count("crashes")
@@ -374,7 +374,7 @@ def run_case(desc):
                     sigctx = "double:" + sigctx
                 elif rc2 != 0:
                     v.bad(f"resume-raises:second-run-exit{rc2}/{sigctx}", "second (to be crashed) run failed by itself", desc=desc)
-                    return v.result(key=json.dumps(desc, sort_keys=True))
+                    return v.result(evaluations=v.counters.get("resumes", 0), key=json.dumps(desc, sort_keys=True))
             check_resume(v, desc, case, env, exp_calls, root, scratch, done, "resume", sigctx)
         elif desc["kind"] == "worker":
             # a WORKER process of a process pool dies at its k-th fs event; the coordinating process sees a broken pool
@@ -383,7 +383,7 @@ def run_case(desc):
             ev = fsmon.read_trace(trace)
             if not any(len(e) > 5 for e in ev):
                 v.count("crash_point_not_reached")
-                return v.result()
+                return v.result(evaluations=v.counters.get("resumes", 0), )
             v.count("crashes")
             v.count("worker_deaths")
             try:
@@ -410,7 +410,7 @@ def run_case(desc):
                 r1 = {}
             if rc != 1 or r1.get("exc", {}).get("type") != "ValueError":
                 v.bad("raise-point:not-propagated", f"injected ValueError did not surface (rc={rc}, {r1.get('exc')})", desc=desc)
-                return v.result(key=json.dumps(desc, sort_keys=True))
+                return v.result(evaluations=v.counters.get("resumes", 0), key=json.dumps(desc, sort_keys=True))
             v.count("raises")
             ev = fsmon.read_trace(trace)
             done = fsmon.complete_files(ev + [[0, "end", ".", None, 0, "CRASH"]])
@@ -421,11 +421,11 @@ def run_case(desc):
                              inputs=_inputs_variant(case, "~old"))
             if rc0 != 0:
                 v.bad("stale:old-run-failed", "preparatory run failed", desc=desc)
-                return v.result()
+                return v.result(evaluations=v.counters.get("resumes", 0), )
             rc = _map_child(case, desc["st"], desc["mode"], root, log1, True, None, crash_at=desc["k"], trace=trace)
             if rc != fsmon.EXIT_CRASH:
                 v.count("crash_point_not_reached")
-                return v.result()
+                return v.result(evaluations=v.counters.get("resumes", 0), )
             ev = fsmon.read_trace(trace)
             last = ev[-1]
             v.count("crashes")
@@ -434,7 +434,7 @@ def run_case(desc):
             phase = "during-cleanup" if not any(e[1] == "mkdir" for e in ev[:-1]) else "after-cleanup"
             v.classes.add("stale-crash-" + phase)
             check_resume(v, desc, case, env, exp_calls, root, scratch, set(), "resume", f"stale-{phase}:{last[1]}")
-    return v.result(key=json.dumps({k: desc[k] for k in desc if k not in ("evkind", "evpath")}, sort_keys=True),
+    return v.result(evaluations=v.counters.get("resumes", 0), key=json.dumps({k: desc[k] for k in desc if k not in ("evkind", "evpath")}, sort_keys=True),
                     sample={"desc": desc, "violations": len(v.violations)} if desc.get("k", 0) % 23 == 5 else None)
 
 
